@@ -152,7 +152,7 @@ def c06(ctx):
         "every applicable node must return a result. Non-trivial: applicable and applied."
     )
     recs, d = family_run(ctx, want_equations=None)
-    report(ctx, d, ["apply_fail", "purity", "find_meta"], ["find"], "applicable => appliable; purity; node search")
+    report(ctx, d, ["apply_fail", "purity", "find_meta", "second_step"], ["find"], "applicable => appliable; purity; node search")
 
 
 def c07(ctx):
@@ -162,7 +162,9 @@ def c07(ctx):
         "re-snapshotted, and object identities (reused / fresh / cloned) compared node by node with the model."
     )
     recs, d = family_run(ctx, want_equations=None)
-    report(ctx, d, ["audit", "vars", "orig"], ["ident", "shape"], "structural soundness and untouched context")
+    # C07 consumes identities, links, context and variables of the results; whether the result has
+    # the SHAPE the model predicts is C01/C02/C08's business (a value-changing rewrite is theirs)
+    report(ctx, d, ["audit", "vars", "orig"], ["ident"], "structural soundness and untouched context")
 
 
 # ----------------------------------------------------------------------------- C09 sequences
@@ -188,7 +190,7 @@ def walk_case(args):
     for step in range(length):
         options = []
         for rn in core.RULE_NAMES:
-            rule = core.RULES[rn]()
+            rule = core.rule_instance(rn)
             try:
                 for n in rule.find_nodes(current):
                     options.append((rn, n.r_index))
@@ -197,7 +199,7 @@ def walk_case(args):
         if not options:
             break
         rn, idx = rng.choice(options)
-        rule = core.RULES[rn]()
+        rule = core.rule_instance(rn)
         node = core.inorder(current)[idx]
         before = core.to_tuple(current, core.tag_map(current))
         try:
